@@ -79,6 +79,8 @@ def c03(tier: str) -> list[dict[str, Any]]:
     out = [
         plan("G2 2 workers, default budget", trav.menu("G2"), m, K=1, statuses=["PASS", "FAIL"], max_nonpass=1, pool_bits="all", pool_states=["customize"]),
         plan("G2 2 workers, max_tries=2", trav.menu("G2", params={"max_tries": "2"}, label="G2-tries2"), m, K=1, statuses=["PASS", "FAIL"], max_nonpass=2),
+        plan("G1 2 workers, max_tries=2, results may arrive while the runner already polls for them", trav.menu("G1", params={"max_tries": "2"}, label="G1-tries2-late"), m, K=1, statuses=["PASS", "LATE:PASS"], pool_fixed=DEEP, atomic_status_wait=False),
+        plan("G3 1 worker, every state of the two-vm tests already there", trav.menu("G3", nets="net1", label="G3x1-all-present"), m, K=1, statuses=["PASS"], pool_fixed={**DEEP, "linux_virtuser": ["shared"], "windows_virtuser": ["shared"], "image1_vm2:guisetup.noop": ["shared"], "image1_vm2:guisetup.clicked": ["shared"]}),
         plan("G3 per-worker scope (swarm removed from pool_scope)", trav.menu("G3", params={"pool_scope": "own cluster shared"}, label="G3-noswarm"), m, K=1, statuses=["PASS", "FAIL"], max_nonpass=1, pool_fixed=DEEP),
         plan("G6 per-swarm scope (cluster removed, remote spawner)", trav.menu("G6b", params={"pool_scope": "own swarm shared"}, label="G6b-nocluster"), m, K=1, statuses=["PASS"], pool_bits="shared", pool_states=["customize"], pool_fixed={"install": ["shared"]}),
         plan("virtual time: G1 2 workers, durations symbolic below test_timeout=1", trav.menu("G1", params={"test_timeout": "1"}, label="G1-timed"), m, timed=True, statuses=["PASS"], pool_fixed={"install": ["shared"]},
